@@ -892,6 +892,9 @@ impl Engine for C13 {
                     for c in codes {
                         out.count(&format!("pair.MT{}:{c}", s.mt), 1);
                     }
+                    if codes.len() >= 2 {
+                        out.artifacts.push(json!({"mt": s.mt, "text": s.text, "codes": codes}));
+                    }
                     if !codes.is_empty() {
                         let mut set: Vec<&String> = codes.iter().collect();
                         set.sort();
